@@ -313,3 +313,371 @@ class RankLemmas(Lemma):
 
 KERNELS = [BindTs, BindScalar, BindSize, ScalarPatternRank, TsPatternRank]
 LEMMAS = [RankLemmas]
+
+
+# =====================================================================================================
+# OperatorRegistry::resolve -- the selection skeleton
+# =====================================================================================================
+# Verified configuration (stated in the evidence): no wiring observers (wiring == nullptr, so the diagnostic-only
+# code is dead), no caller-pinned size hints, the winner has no keyword arguments.  normalize_call and try_match are
+# opaque but deterministic per candidate: norm_ok[i], match_ok[i], adj[i] (rank adjustment).
+
+from cxxvc.interp import ThrowEx, ExcVal  # noqa: E402
+from cxxvc.models import VecIter  # noqa: E402
+
+B_ = z3.BoolSort()
+qa, qb = z3.Ints("qa qb")
+
+
+class Wild(Obj):
+    """diagnostic / bookkeeping object whose content does not matter for the selection"""
+    cls = "wild"
+
+    def member(self, ctx, name, node):
+        return Wild(name=name)
+
+    def call(self, I, args, n):
+        return Wild(name="result")
+
+    def op(self, I, op, rest, n, a0):
+        return Wild(name="result")
+
+
+class ImplObj(Obj):
+    cls = "OperatorImpl"
+
+    def __init__(self, k, idx):
+        Obj.__init__(self, name="impl")
+        self.k, self.idx = k, idx
+
+    def same_as(self, other):
+        return self.idx == other.idx
+
+    def member(self, ctx, name, node):
+        if name == "rank":
+            return self.k.impl_rank[self.idx]
+        return Wild(name=name)
+
+
+class SurvVec(Obj):
+    """std::vector<Survivor>: len, sidx[] (candidate index), srank[]"""
+    cls = "std::vector<Survivor>"
+
+    def __init__(self, ctx, k):
+        Obj.__init__(self, name="survivors")
+        self.k = k
+        ctx.store[(self.oid, "len")] = z3.IntVal(0)
+        ctx.store[(self.oid, "sidx")] = z3.K(I_, z3.IntVal(-1))
+        ctx.store[(self.oid, "srank")] = z3.K(I_, z3.IntVal(0))
+
+    def f(self, ctx, nm):
+        return ctx.store[(self.oid, nm)]
+
+    def length(self, ctx):
+        return self.f(ctx, "len")
+
+    def m_push_back(self, I, args, n):
+        ctx = I.ctx
+        s = ctx.rv(args[0])
+        L = self.f(ctx, "len")
+        ctx.write(Loc((self.oid, "sidx")), z3.Store(self.f(ctx, "sidx"), L, s.impl.idx))
+        ctx.write(Loc((self.oid, "srank")), z3.Store(self.f(ctx, "srank"), L, s.rank))
+        ctx.write(Loc((self.oid, "len")), L + 1)
+        return VOID
+
+    def m_empty(self, I, args, n):
+        return self.f(I.ctx, "len") == 0
+
+    def m_size(self, I, args, n):
+        return self.f(I.ctx, "len")
+
+    def m_begin(self, I, args, n):
+        return VecIter(self, z3.IntVal(0))
+
+    def m_end(self, I, args, n):
+        return VecIter(self, self.f(I.ctx, "len"))
+
+    def elem_loc(self, idx):
+        return SurvRef(self, idx)
+
+    def op(self, I, op, rest, n, a0):
+        if op == "[]":
+            i = I.ctx.rv(rest[0])
+            I.ctx.oblige("vector-index-in-range@%s" % extract.line_of(n), z3.And(i >= 0, i < self.f(I.ctx, "len")), kind="bounds")
+            return SurvRef(self, i)
+        return NotImplemented
+
+
+class SurvRef(Obj):
+    cls = "Survivor&"
+
+    def __init__(self, vec, idx):
+        Obj.__init__(self, name="survivor")
+        self.vec, self.idx = vec, idx
+
+    def member(self, ctx, name, node):
+        if name == "rank":
+            return self.vec.f(ctx, "srank")[self.idx]
+        if name == "impl":
+            return Ptr(ImplObj(self.vec.k, self.vec.f(ctx, "sidx")[self.idx]), z3.BoolVal(False))
+        if name == "call":
+            return CallObj(self.vec.k)
+        return Wild(name=name)
+
+
+class SurvObj(Obj):
+    cls = "Survivor"
+
+    def __init__(self, impl, rank):
+        Obj.__init__(self, name="survivor_value")
+        self.impl, self.rank = impl, rank
+
+
+class CallObj(Obj):
+    cls = "NormalizedCall"
+
+    def __init__(self, k):
+        Obj.__init__(self, name="call")
+        self.k = k
+
+    def member(self, ctx, name, node):
+        if name == "defaults_used":
+            return ctx.store[(self.k.g.oid, "defaults_used")]
+        if name == "kwargs":
+            return Vec(ctx, "kwargs", length=z3.IntVal(0))
+        return Wild(name=name)
+
+
+class Resolve(Kernel):
+    name = "operator_dispatch.cpp:OperatorRegistry::resolve"
+    tu = "src/hgraph/types/operator_dispatch.cpp"
+    filter = "OperatorRegistry::resolve"
+    fn_name = "resolve"
+    property_ids = ("C19",)
+    scope = {"lo": 0, "hi": 3}
+    title = "resolve: the unique survivor of minimum rank is selected; none -> resolution error; shared minimum -> ambiguity error"
+    max_paths = 20000
+
+    def setup(self, I):
+        ctx = I.ctx
+        th = Obj("OperatorRegistry", "this_registry")
+        self.th = th
+        g = Obj("ghost", "rg")
+        self.g = g
+        self.N = z3.Int("n_candidates")
+        self.known = z3.Bool("name_registered")
+        self.norm_ok = z3.Array("normalize_ok", I_, B_)
+        self.match_ok = z3.Array("match_ok", I_, B_)
+        self.adj = z3.Array("rank_adjustment", I_, I_)
+        self.impl_rank = z3.Array("impl_rank", I_, I_)
+        ctx.store[(g.oid, "defaults_used")] = z3.Int("defaults_used0")
+        ctx.assume(self.N >= 0)
+        self.impls = Vec(ctx, "family", length=self.N, elem=lambda i: ImplObj(self, i))
+        ctx.store[(th.oid, "overloads_")] = OverloadMap(self)
+        self.sv = None
+        return th, {"name": z3.Int("op_name"), "args": Wild(name="args"), "output_required": Opt(z3.Bool("or_has"), z3.Bool("or_v")),
+                    "expected_output": Ptr(None), "size_hints": Vec(ctx, "size_hints", length=z3.IntVal(0)),
+                    "global_state": Wild(name="global_state"), "wiring": Ptr(None), "initial_resolution": Ptr(None)}
+
+    def surv(self, i):
+        return z3.And(self.norm_ok[i], self.match_ok[i])
+
+    def rk(self, i):
+        return self.impl_rank[i] + self.adj[i]
+
+    def function_handler(self, name, node, callee_node):
+        h = getattr(self, "f_" + name, None)
+        if h is not None:
+            return h
+        if name in ("format", "join"):
+            return lambda I, a, n: I.ctx.fresh("text")
+        return Kernel.function_handler(self, name, node, callee_node)
+
+    def method_handler(self, obj, name, node):
+        if isinstance(obj, Wild):
+            if name == "size":
+                return lambda I, o, a, n: I.ctx.fresh("wild_size")
+            if name == "empty":
+                return lambda I, o, a, n: I.ctx.fresh("wild_empty", "bool")
+            return lambda I, o, a, n: Wild(name=name)
+        return Kernel.method_handler(self, obj, name, node)
+
+    def f_normalize_call(self, I, args, n):
+        ctx = I.ctx
+        impl = ctx.rv(args[0])
+        ctx.write(Loc((self.g.oid, "defaults_used")), ctx.fresh("defaults_used"))
+        return self.norm_ok[impl.idx]
+
+    def f_try_match(self, I, args, n):
+        ctx = I.ctx
+        impl = ctx.rv(args[0])
+        ra = args[6]
+        if not isinstance(ra, Loc):
+            raise Gap("try_match: rank_adjustment is not passed by reference")
+        ctx.write(ra, self.adj[impl.idx])
+        flag = args[10]
+        if isinstance(flag, Loc):
+            ctx.write(flag, ctx.fresh("any_requires_rejected", "bool"))
+        return self.match_ok[impl.idx]
+
+    def f_stable_sort(self, I, args, n):
+        """std::stable_sort(begin, end, by rank): a stable sorted permutation of the survivors"""
+        ctx = I.ctx
+        b, e = ctx.rv(args[0]), ctx.rv(args[1])
+        sv = b.vec
+        L = sv.f(ctx, "len")
+        ctx.oblige("callee-pre.stable_sort:whole-survivor-range", z3.And(b.idx == 0, e.idx == L), kind="callee-pre")
+        i0, r0 = sv.f(ctx, "sidx"), sv.f(ctx, "srank")
+        i1, r1 = ctx.fresh("sorted_idx", i0.sort()), ctx.fresh("sorted_rank", r0.sort())
+        pi, inv = ctx.fresh("perm", i0.sort()), ctx.fresh("perm_inv", i0.sort())
+        rng = lambda v: z3.And(v >= 0, v < L)
+        ctx.assume(z3.ForAll([qa], z3.Implies(rng(qa), z3.And(rng(pi[qa]), rng(inv[qa]), inv[pi[qa]] == qa, pi[inv[qa]] == qa,
+                                                            i1[qa] == i0[pi[qa]], r1[qa] == r0[pi[qa]]))))
+        # the same permutation read from the unsorted side (redundant, helps instantiation)
+        ctx.assume(z3.ForAll([qa], z3.Implies(rng(qa), z3.And(i0[qa] == i1[inv[qa]], r0[qa] == r1[inv[qa]]))))
+        ctx.assume(z3.ForAll([qa, qb], z3.Implies(z3.And(rng(qa), rng(qb), qa < qb), z3.And(
+            r1[qa] <= r1[qb], z3.Implies(r1[qa] == r1[qb], pi[qa] < pi[qb])))))
+        ctx.write(Loc((sv.oid, "sidx")), i1)
+        ctx.write(Loc((sv.oid, "srank")), r1)
+        return VOID
+
+    def ctor_handler(self, qt, node):
+        if "Survivor" in qt and ("vector<" in qt):
+            def mkv(I, args, n):
+                self.sv = SurvVec(I.ctx, self)
+                return self.sv
+            return mkv
+        if qt.endswith("Survivor"):
+            def mks(I, args, n):
+                a = [I.ctx.rv(x) for x in args]
+                if len(a) == 1 and isinstance(a[0], SurvObj):
+                    return a[0]
+                return SurvObj(a[0].target, a[3])
+            return mks
+        if qt.endswith("NormalizedCall"):
+            return lambda I, args, n: I.ctx.rv(args[0]) if args else CallObj(self)
+        if qt.endswith("ResolvedOperatorCall"):
+            def mkr(I, args, n):
+                a = [I.ctx.rv(x) for x in args]
+                if len(a) == 1 and isinstance(a[0], Obj) and a[0].cls == "ResolvedOperatorCall":
+                    return a[0]
+                o = Obj("ResolvedOperatorCall", "resolved")
+                o.impl = a[0]
+                return o
+            return mkr
+        if qt.endswith("WiringResolutionEvent") or qt.endswith("ResolutionMap") or "vector<std::pair<" in qt \
+                or qt.endswith("WiringArg"):
+            return lambda I, args, n: I.ctx.rv(args[0]) if args and isinstance(I.ctx.rv(args[0]), Obj) else Wild(name=qt[-20:])
+        return Kernel.ctor_handler(self, qt, node)
+
+    def default_value(self, I, qt, d):
+        v = Kernel.default_value(self, I, qt, d)
+        if v is not None:
+            return v
+        from cxxvc.interp import strip_type
+        s = strip_type(qt)
+        if s.startswith("std::vector<") or s == "std::string" or s.startswith("std::basic_string"):
+            if "string>" in s or s.startswith("std::vector<std::string") or s.startswith("std::vector<std::basic_string"):
+                return Vec(I.ctx, d.get("name", "vec"), length=z3.IntVal(0))
+            return I.ctx.fresh("str") if "string" in s and "vector" not in s else None
+        return None
+
+    # loops in source order: 0 diagnostics args, 1 candidates, 2 params, 3 size names, 4 tied, 5 kwargs
+    def inv_candidates(self, I, ctx):
+        pos = self.range_pos(I)
+        sv = self.sv
+        L, si, sr = sv.f(ctx, "len"), sv.f(ctx, "sidx"), sv.f(ctx, "srank")
+        yield "pos-range", z3.And(pos >= 0, pos <= self.N, L >= 0)
+        yield "survivors-are-exactly-the-matching-candidates-seen-so-far,in-order", z3.And(
+            z3.ForAll([qa], z3.Implies(z3.And(qa >= 0, qa < L), z3.And(si[qa] >= 0, si[qa] < pos, self.surv(si[qa]),
+                                                                     sr[qa] == self.rk(si[qa])))),
+            z3.ForAll([qa, qb], z3.Implies(z3.And(qa >= 0, qa < qb, qb < L), si[qa] < si[qb])),
+            z3.ForAll([qk], z3.Implies(z3.And(qk >= 0, qk < pos, self.surv(qk)), z3.Exists([qa], z3.And(qa >= 0, qa < L, si[qa] == qk)))))
+        yield "found", self.known
+
+    def frame_candidates(self, I, ctx):
+        sv = self.sv
+        fr = [Loc((sv.oid, nm)) for nm in ("len", "sidx", "srank")]
+        rej = self.local_obj(I, "rejected")
+        fr += [rej.loc("len"), rej.loc("data"), Loc((self.g.oid, "defaults_used"))]
+        return fr
+
+    def inv_tied(self, I, ctx):
+        pos = self.range_pos(I)
+        yield "pos-range", z3.And(pos >= 0, pos <= self.sv.f(ctx, "len"))
+
+    def frame_tied(self, I, ctx):
+        t = self.local_obj(I, "tied")
+        return [t.loc("len"), t.loc("data")]
+
+    @property
+    def loops(self):
+        return {0: LoopSpec(unroll=0, unwind_assert=True), 1: LoopSpec(self.inv_candidates, self.frame_candidates),
+                2: LoopSpec(unroll=0, unwind_assert=True), 3: LoopSpec(unroll=0, unwind_assert=True),
+                4: LoopSpec(self.inv_tied, self.frame_tied), 5: LoopSpec(unroll=0, unwind_assert=True)}
+
+    def unique_min(self, w):
+        return z3.And(w >= 0, w < self.N, self.surv(w),
+                      z3.ForAll([qk], z3.Implies(z3.And(qk >= 0, qk < self.N, qk != w, self.surv(qk)), self.rk(qk) > self.rk(w))))
+
+    def post(self, I, ret):
+        ctx = I.ctx
+        w = ret.impl.target.idx
+        ctx.oblige("ensures.selected=the-unique-matching-candidate-of-minimum-rank[C19 unique most specific match; the winner "
+                   "is a function of the set of (candidate, rank), so registration order cannot matter]",
+                   z3.And(self.known, self.unique_min(w)), kind="post-normal")
+
+    def post_exc(self, I, exc):
+        ctx = I.ctx
+        any_surv = z3.Exists([qk], z3.And(qk >= 0, qk < self.N, self.surv(qk)))
+        shared_min = z3.Exists([qa, qb], z3.And(qa >= 0, qa < self.N, qb >= 0, qb < self.N, qa != qb, self.surv(qa), self.surv(qb),
+                                                self.rk(qa) == self.rk(qb),
+                                                z3.ForAll([qk], z3.Implies(z3.And(qk >= 0, qk < self.N, self.surv(qk)),
+                                                                           self.rk(qk) >= self.rk(qa)))))
+        is_res = z3.BoolVal(exc.cls.endswith("OperatorResolutionError"))
+        is_req = z3.BoolVal(exc.cls.endswith("OperatorRequirementsError"))
+        ctx.oblige("raises.resolution-error-iff-nothing-matches,ambiguity-error-iff-the-best-rank-is-shared[C19]",
+                   z3.Or(z3.And(is_res, z3.Or(z3.Not(self.known), self.N == 0)),
+                         z3.And(z3.Or(is_res, is_req), self.known, self.N > 0, z3.Not(any_surv)),
+                         z3.And(is_res, self.known, shared_min)), kind="post-exceptional")
+
+
+class OverloadMap(Obj):
+    cls = "std::map<name, family>"
+
+    def __init__(self, k):
+        Obj.__init__(self, name="overloads_")
+        self.k = k
+
+    def m_find(self, I, args, n):
+        return FamilyIter(self.k, z3.Not(self.k.known))
+
+    def m_end(self, I, args, n):
+        return FamilyIter(self.k, z3.BoolVal(True))
+
+
+class FamilyIter(Obj):
+    cls = "map iterator"
+    is_value = True
+
+    def __init__(self, k, is_end):
+        Obj.__init__(self, name="family_iter")
+        self.k, self.is_end = k, is_end
+
+    def compare(self, I, op, other):
+        e = z3.And(self.is_end, other.is_end) if not z3.is_true(z3.simplify(other.is_end)) else self.is_end
+        return e if op == "==" else z3.Not(e)
+
+    def op(self, I, op, rest, n, a0):
+        if op in ("==", "!="):
+            return self.compare(I, op, rest[0])
+        return NotImplemented
+
+    def arrow(self, I):
+        from cxxvc.interp import Pair
+        I.ctx.oblige("map-iterator-valid", z3.Not(self.is_end), kind="iterator")
+        return Pair(z3.IntVal(0), self.k.impls)
+
+
+models.install_guards(Resolve)
+KERNELS += [Resolve]
